@@ -80,6 +80,25 @@ heading_level_from_context(uint64_t n)
 }
 
 /*
+    Return the token holding the name of the tag whose frame is on top of the stack
+    (the second token of the frame), or NULL with an exception set if it is missing,
+    which can only happen when an earlier emit failed.
+*/
+static PyObject *
+Tokenizer_tag_name_token(Tokenizer *self)
+{
+    PyObject *stack = self->topstack->stack;
+
+    if (PyList_GET_SIZE(stack) < 2) {
+        if (!PyErr_Occurred()) {
+            PyErr_SetString(PyExc_SystemError, "tag frame has no name token");
+        }
+        return NULL;
+    }
+    return PyList_GET_ITEM(stack, 1);
+}
+
+/*
     Sanitize the name of a tag so it can be compared with others for equality.
 */
 static PyObject *
@@ -87,6 +106,9 @@ strip_tag_name(PyObject *token, int take_attr)
 {
     PyObject *text, *rstripped, *lowered;
 
+    if (!token) {
+        return NULL;
+    }
     if (take_attr) {
         text = PyObject_GetAttrString(token, "text");
         if (!text) {
@@ -1552,7 +1574,7 @@ Tokenizer_handle_tag_close_close(Tokenizer *self)
             break;
         case 1: {
             so = strip_tag_name(first, 1);
-            sc = strip_tag_name(PyList_GET_ITEM(self->topstack->stack, 1), 1);
+            sc = strip_tag_name(Tokenizer_tag_name_token(self), 1);
             if (so && sc) {
                 if (PyUnicode_Compare(so, sc)) {
                     valid = 0;
@@ -1624,7 +1646,7 @@ Tokenizer_handle_blacklisted_tag(Tokenizer *self)
                         return NULL;
                     }
                     start_tag =
-                        strip_tag_name(PyList_GET_ITEM(self->topstack->stack, 1), 1);
+                        strip_tag_name(Tokenizer_tag_name_token(self), 1);
                     if (!start_tag) {
                         return NULL;
                     }
@@ -1819,7 +1841,10 @@ Tokenizer_really_parse_tag(Tokenizer *self)
             }
             TagData_dealloc(data);
             self->topstack->context = LC_TAG_BODY;
-            token = PyList_GET_ITEM(self->topstack->stack, 1);
+            token = Tokenizer_tag_name_token(self);
+            if (!token) {
+                return NULL;
+            }
             text = PyObject_GetAttrString(token, "text");
             if (!text) {
                 return NULL;
@@ -2726,7 +2751,10 @@ Tokenizer_handle_end(Tokenizer *self, uint64_t context)
 
     if (context & AGG_FAIL) {
         if (context & LC_TAG_BODY) {
-            token = PyList_GET_ITEM(self->topstack->stack, 1);
+            token = Tokenizer_tag_name_token(self);
+            if (!token) {
+                return NULL;
+            }
             text = PyObject_GetAttrString(token, "text");
             if (!text) {
                 return NULL;
